@@ -43,8 +43,14 @@ type Contract struct {
 	Inline   bool
 	NoInline bool
 	Iface    bool // contract of an interface method (key = pkg.Iface.Method)
+	Splits   []SplitSpec // case splits applied to every ensures obligation
 	Loops    map[int]*LoopSpec
 	Props    []string // property ids that own this function's obligations (informational)
+}
+
+type SplitSpec struct {
+	Var    CExpr
+	Lo, Hi int64
 }
 
 type SpecParam struct{ Name, Type string }
@@ -94,7 +100,7 @@ var clauseKeywords = map[string]bool{
 	"ghost": true, "spec": true, "global-invariant": true, "func": true, "extern": true, "iface": true,
 	"requires": true, "ensures": true, "modifies": true, "pure": true, "trusted": true, "inline": true,
 	"noinline": true, "loop": true, "invariant": true, "decreases": true, "lemma": true, "assume": true,
-	"show": true, "props": true, "loopmodifies": true,
+	"show": true, "props": true, "loopmodifies": true, "split": true,
 }
 
 // logical lines: keyword + rest (continuations joined)
@@ -380,6 +386,21 @@ func (cs *Contracts) LoadFile(path, pkgPath string) error {
 			case "noinline":
 				cur.NoInline = true
 			}
+		case "split":
+			if cur == nil {
+				return fail(l, "split outside function")
+			}
+			f := strings.Fields(l.rest)
+			if len(f) != 3 {
+				return fail(l, "split EXPR LO HI")
+			}
+			ve, err := ParseCExpr(f[0])
+			if err != nil {
+				return fail(l, "%v", err)
+			}
+			lo, _ := strconv.ParseInt(f[1], 10, 64)
+			hi, _ := strconv.ParseInt(f[2], 10, 64)
+			cur.Splits = append(cur.Splits, SplitSpec{ve, lo, hi})
 		case "props":
 			if cur != nil {
 				cur.Props = strings.Fields(strings.ReplaceAll(l.rest, ",", " "))
